@@ -18,7 +18,7 @@ ASSUMPTIONS = ["lentil's physical constants differ from CODATA by < 1e-6 relativ
 EXHAUSTIVE = True
 PLAN = {'quick': {'gen': 4}, 'thorough': {'gen': 8, 'tests': 1, 'docs': 1}}
 REQUIRED_BUCKETS = ['wave-triple', 'flux-triple', 'spectrum.to:density', 'spectrum.to:unitless', 'spectrum.to:flux-roundtrip', 'spectrum.to:multi', 'spectrum.sample:unit', 'blackbody:converted',
-                    'planck:radiance', 'planck:exitance', 'planck:forms', 'planck:argument-types', 'planck:rayleigh-jeans', 'spectrum.to:refused-tail', 'same-numbers:mixed-units', 'wien', 'stefan-boltzmann', 'vega', 'spectrum.to:edit-in-place', 'spectrum.bin:unit']
+                    'planck:radiance', 'planck:exitance', 'planck:forms', 'planck:argument-types', 'planck:rayleigh-jeans', 'spectrum.to:refused-tail', 'same-numbers:mixed-units', 'wien', 'stefan-boltzmann', 'vega', 'spectrum.to:edit-in-place', 'spectrum.bin:unit', 'unit:aliases']
 REQUIRED_ANCHORS = ['anchor:Spectrum.to', 'anchor:planck_radiance', 'anchor:planck_exitance', 'anchor:vegaflux',
                     'anchor:Photlam.to', 'anchor:Micron.to']
 REQUIRED_ORACLES = ['wave:compose', 'wave:identity', 'wave:roundtrip', 'wave=si', 'flux:compose', 'flux:identity',
@@ -247,6 +247,36 @@ def workload(ctx, lentil):
                       {'units': [ua, ub], 'op': opn, 'n': [len(r1.wave), len(r2.wave)]})
         except Exception as e:
             ctx.check(False, 'to:values', f'same-numbers|raises={type(e).__name__}', str(e), {'units': [ua, ub], 'op': opn})
+    # ---- every name Unit() accepts for a wavelength unit ('meter', 'micron', 'nanometer', any letter case) means that unit wherever
+    # a unit is asked for: Spectrum.to, sample, resample, bin --------------------------------------------------------------------
+    ALIASES = {'m': ['meter', 'Meter', 'M'], 'um': ['micron', 'MICRON', 'Um'], 'nm': ['nanometer', 'Nanometer', 'NM'], 'angstrom': ['Angstrom', 'ANGSTROM']}
+    for i in range(max(8, n // 6)):
+        npts = int(rng.integers(6, 20))
+        u0, u1 = sm.WAVE_CANON[int(rng.integers(0, 4))], sm.WAVE_CANON[int(rng.integers(0, 4))]
+        alias = ALIASES[u1][int(rng.integers(0, len(ALIASES[u1])))]
+        wave_nm = np.linspace(float(rng.uniform(300, 500)), float(rng.uniform(900, 1500)), npts)
+        value = rng.uniform(0.1, 5, size=npts)
+        vu = [None, 'photlam'][i % 2]
+        desc = {'unit-alias': alias, 'means': u1, 'spectrum-in': u0, 'valueunit': vu}
+        ctx.case(desc, ['unit:aliases'])
+        mk = lambda: R.Spectrum(wave_nm * sm.wave_factor('nm', u0), value.copy(), waveunit=u0, valueunit=vu)
+        q = np.linspace(wave_nm[1], wave_nm[-2], 5) * sm.wave_factor('nm', u1)
+        cen = np.linspace(wave_nm[2], wave_nm[-3], 4) * sm.wave_factor('nm', u1)
+        for what, fn in (('to', lambda sp, u: (sp.to(u), np.r_[np.asarray(sp.wave, float), np.asarray(sp.value, float)])[1]),
+                         ('sample', lambda sp, u: np.asarray(sp.sample(q, waveunit=u), float)),
+                         ('resample', lambda sp, u: (sp.resample(q, waveunit=u), np.r_[np.asarray(sp.wave, float), np.asarray(sp.value, float)])[1]),
+                         ('bin', lambda sp, u: np.asarray(sp.bin(cen, interp_method='trapz', waveunit=u), float))):
+            try:
+                ref = fn(mk(), u1)
+            except Exception:
+                continue                      # (the canonical name itself is checked elsewhere)
+            try:
+                got = fn(mk(), alias)
+                ctx.close('to:values', got, ref, 1e-13, f'unit-alias|{what}', f'Spectrum.{what} with a unit name that Unit() accepts as an alias '
+                          'gives another result than with the canonical name', desc, scale=float(np.max(np.abs(ref))) + 1e-300)
+            except Exception as e:
+                ctx.check(False, 'to:values', f'unit-alias|{what}|raises={type(e).__name__}',
+                          f'Spectrum.{what} refuses the unit name {alias!r} that Unit() accepts: {e}', desc)
     # ---- convert, edit the arrays in place, convert straight back: the spectrum as it is NOW is what is converted ------------------
     for i in range(max(10, n // 3)):
         npts = int(rng.integers(3, 20))
